@@ -13,5 +13,11 @@ CHECKS["C02"] = (
     "Theorems for every capacity N >= 1 and every history: length = min(n,N), slots in write order = the last min(n,N) additions, every in-range draw returns a stored recent row, never-written slots lie outside the draw range; multi-task: additions only reach the selected task, batches come from one task that has data. The extracted model is run against ReplayBuffer, LAP, PrioritizedReplayBuffer and MultiTaskReplayBuffer on every run.",
     "Trusts: Coq kernel, extraction, OCaml glue, Python harness, the scripted generator's coverage of draw ranges; NumPy indexing and dtype casts as executed. No axioms.",
 )
+CHECKS["C08"] = (
+    "DESIGN.md §2 C08",
+    "Coq proof (inverse-CDF sampling law over Q for plain, masked and stratified sampling; bookkeeping invariants by induction over all add/sample/update/reset histories; importance-weight and priority monotonicity over R) + model/implementation correspondence with exact dyadic priorities",
+    "Theorems: the index returned for u is the one whose cumulative interval (c_{i-1}, c_i] contains u*T (so P(i) = p_i m_i / T, never a masked, zero or unfilled entry); new transitions get the current maximum; update changes exactly the last sampled batch; max_priority dominates over every history and is exact after reset; IS weights in (0,1], max 1, antitone; LAP/PER priorities positive and monotone. The extracted model is compared with LAP, PrioritizedReplayBuffer, SubtrajectoryReplayBufferPER and the multi-task wrapper on every run.",
+    "Trusts: Coq kernel; real-number axioms of the standard library for the weight/priority theorems (ClassicalDedekindReals.sig_forall_dec, sig_not_dec, functional_extensionality_dep, Classical_Prop.classic as reported by Print Assumptions); the Q theorems are axiom-free; extraction, OCaml glue (libm pow in the float instance), Python harness; np.cumsum/searchsorted as executed.",
+)
 _PENDING = "check not built yet in this revision (planned: Coq model + correspondence, see DESIGN.md §2)"
 NOT_APPLICABLE = {f"C{i:02d}": _PENDING for i in range(1, 21) if f"C{i:02d}" not in CHECKS}
